@@ -3,7 +3,9 @@
 (* C14: bit-field extraction returns exactly the addressed bits.           *)
 (* Event: [buf, pos, len, u, s, panic] - one call of GetBitsAsUint64 and   *)
 (* (len >= 2) GetBitsAsInt64 on the real code; u and s are the 64-bit      *)
-(* results as three limbs (20/22/22 bits).                                 *)
+(* results as three limbs (20/22/22 bits); intact: the caller's memory (the *)
+(* buffer and the bytes behind it in the same array) was not written to.   *)
+(* The cases include one buffer refilled in place between calls.           *)
 (***************************************************************************)
 EXTENDS TraceBase, Bits
 
@@ -12,6 +14,7 @@ VARIABLES l, bad
 Ok(e) ==
     LET f == FieldBits(e.buf, e.pos, e.len) IN
     /\ e.panic = ""
+    /\ e.intact                        \* extraction only reads: the buffer and what follows it in memory are as before
     /\ e.u = Limbs64(ZeroExtend64(f))
     /\ (e.len >= 2 => e.s = Limbs64(SignExtend64(f)))
 
